@@ -373,7 +373,18 @@ fn construct_atom(b: &mut Builder, r: &mut Rng) -> E {
         1 => b.unbound(),
         _ => E::FailLit(*r.pick(&FailLit::ALL)),
     };
-    match r.below(4) {
+    match r.below(5) {
+        4 => {
+            // two failing segments: still a failing operand, nothing more
+            let second = match r.below(2) {
+                0 => b.unbound(),
+                _ => {
+                    let c = inj_class(r);
+                    b.cb(vec![Answer::Fail(c)], vec![])
+                }
+            };
+            E::FStr(vec![FSeg::Expr(failing), FSeg::Lit("-".into()), FSeg::Expr(second)])
+        }
         0 => E::FStr(vec![FSeg::Lit("s".into()), FSeg::Expr(failing)]),
         1 => {
             let m = b.bound(V::map(vec![("present", V::Int(1))]));
@@ -526,9 +537,55 @@ fn gen_match(b: &mut Builder, r: &mut Rng, depth: u32) -> E {
     E::Match(Box::new(scrut), cases)
 }
 
+/// 33..48 failing operands of one `||` chain, then a truthy one: every failure is absorbed,
+/// every operand evaluated once, the result is true (absorbing a failure must not use anything up)
+fn gen05_long_chain(b: &mut Builder, r: &mut Rng) -> E {
+    let n = 45 + r.usize(26);
+    let shared = {
+        let c = inj_class(r);
+        b.site(vec![Answer::Fail(c)])
+    };
+    let mut e: Option<E> = None;
+    for i in 0..n {
+        // mostly operands whose failure arises in a nested evaluation (a stored program, the
+        // argument of has)
+        let op = match r.weighted(&[1, 1, 3, 3, 1]) {
+            0 => E::Call(shared, vec![]),
+            1 => b.unbound(),
+            2 => {
+                let body = b.cb(vec![Answer::Fail(inj_class(r))], vec![]);
+                let name = format!("q{}", b.case.programs.len());
+                b.case.programs.insert(name.clone(), body);
+                E::Prog(name)
+            }
+            3 => E::Has(Box::new(b.unbound())),
+            _ => {
+                let c = inj_class(r);
+                b.cb(vec![Answer::Fail(c)], vec![])
+            }
+        };
+        let _ = i;
+        e = Some(match e {
+            None => op,
+            Some(acc) => E::or(acc, op),
+        });
+    }
+    let last = match r.below(3) {
+        0 => E::Lit(V::Bool(true)),
+        1 => b.cb(vec![Answer::V(V::Int(7))], vec![]),
+        _ => b.bound(V::s("truthy")),
+    };
+    E::or(e.unwrap(), last)
+}
+
 pub fn gen05_random(seed: u64) -> EnvCase {
     let mut r = Rng::new(seed);
     let mut b = Builder::new(&mut r, 1);
+    if r.chance(1, 200) {
+        b.case.flat = true;
+        let e = gen05_long_chain(&mut b, &mut r);
+        return b.finish(e);
+    }
     let depth = 1 + r.below(5) as u32;
     let e = gen05_expr(&mut b, &mut r, depth);
     b.case.pre = gen_pre(&mut r);
@@ -779,7 +836,14 @@ pub fn gen07_random(seed: u64) -> EnvCase {
                 (b.cb(sc, vec![E::var("acc"), E::var(var)]), V::s("seed"))
             }
         };
-        let seed_e = match r.below(4) {
+        let seed_e = match r.below(5) {
+            4 => {
+                // the seed is the bare name of a stored program
+                let body = if r.chance(1, 2) { E::Lit(seedv.clone()) } else { b.cb(vec![Answer::V(seedv.clone())], vec![]) };
+                let name = format!("sd{}", b.case.programs.len());
+                b.case.programs.insert(name.clone(), body);
+                E::Prog(name)
+            }
             0 => b.cb(vec![Answer::V(seedv)], vec![]),
             1 => b.bound(seedv),
             2 if r.chance(1, 3) => b.cb(vec![Answer::Fail(inj_class(&mut r))], vec![]),
@@ -1247,13 +1311,30 @@ fn gen08_expr(b: &mut Builder, r: &mut Rng, depth: u32) -> E {
         }
         // the path inside an f-string, as the receiver of a built-in method, or as the range of
         // a macro: all of them fail the way the path fails, so absent stays absent
-        if r.chance(1, 6) {
+        if r.chance(1, 4) {
             let absent_like = !matches!(cfg, PathCfg::Present | PathCfg::NullLeaf | PathCfg::RootCallback | PathCfg::RootProgram | PathCfg::LiteralPresent);
-            let wrapped = match r.below(4) {
+            let wrapped = match r.below(5) {
+                4 if absent_like => E::Reduce(
+                    Box::new(E::Lit(V::list(vec![V::Int(1), V::Int(2)]))),
+                    "acc".into(),
+                    "x".into(),
+                    Box::new(E::var("acc")),
+                    Box::new(p.clone()),
+                ),
                 0 => E::FStr(vec![FSeg::Lit("v=".into()), FSeg::Expr(p.clone())]),
                 1 if absent_like => E::MCall(Box::new(p.clone()), r.pick(&["size", "toUpper", "trim"]).to_string(), vec![]),
                 2 if absent_like => E::MCall(Box::new(p.clone()), "contains".to_string(), vec![E::Lit(V::s("a"))]),
-                3 if absent_like => E::mac(MacroKind::Map, p.clone(), "x", vec![E::var("x")]),
+                3 if absent_like => {
+                    let k = *r.pick(&[MacroKind::Map, MacroKind::Filter, MacroKind::All, MacroKind::Exists, MacroKind::ExistsOne]);
+                    E::mac(k, p.clone(), "x", vec![E::var("x")])
+                }
+                3 => E::Reduce(
+                    Box::new(E::Lit(V::list(vec![V::Int(1), V::Int(2)]))),
+                    "acc".into(),
+                    "x".into(),
+                    Box::new(E::var("acc")),
+                    Box::new(p.clone()),
+                ),
                 _ => E::FStr(vec![FSeg::Expr(p.clone()), FSeg::Lit("!".into())]),
             };
             return match r.below(3) {
